@@ -48,6 +48,10 @@ type GenConfig struct {
 	// ExplicitMappings: render explicit OpenAPI discriminator mappings (cog
 	// keeps their values as "#/components/schemas/X" strings: known finding)
 	ExplicitMappings bool
+	// RefChain: three struct definitions of scalar-like fields, each holding a
+	// plain reference ("inner") to the next one: Entry.inner.inner is an object
+	// two references away
+	RefChain bool
 }
 
 func DefaultGenConfig(f Format) GenConfig {
@@ -114,7 +118,10 @@ func Draw(t *rapid.T, cfg GenConfig) *Model {
 	if cfg.Intersections {
 		minStructs = min(3, max(1, cfg.MaxDefs-3))
 	}
-	nStructs := rapid.IntRange(minStructs, max(1, cfg.MaxDefs-3)).Draw(t, "nstructs")
+	if cfg.RefChain {
+		minStructs = 3
+	}
+	nStructs := rapid.IntRange(minStructs, max(minStructs, cfg.MaxDefs-3)).Draw(t, "nstructs")
 	g.structs = pickDistinct(t, defNamePool, nStructs, "structnames", taken)
 	nVariants := rapid.SampledFrom([]int{0, 2, 2, 3}).Draw(t, "nvariants")
 	g.variants = pickDistinct(t, variantNamePool, nVariants, "variantnames", taken)
@@ -147,6 +154,25 @@ func Draw(t *rapid.T, cfg GenConfig) *Model {
 			st = g.denseStruct()
 		} else {
 			st = g.structType(1, "")
+		}
+		if cfg.RefChain && i > 0 {
+			// bounded fields of the inner objects are optional: the objects their
+			// constructors make stay valid
+			for k := range st.Fields {
+				if len(Violations(st.Fields[k].Type)) > 0 {
+					st.Fields[k].Required = false
+				}
+			}
+		}
+		if cfg.RefChain && i+1 < len(g.structs) {
+			kept := st.Fields[:0]
+			for _, f := range st.Fields {
+				if f.Name != "inner" {
+					kept = append(kept, f)
+				}
+			}
+			st.Fields = kept
+			st.Fields = append(kept, Field{Name: "inner", Type: T{Kind: KRef, Ref: g.structs[i+1]}, Required: rapid.IntRange(0, 3).Draw(t, "chainrequired") == 0})
 		}
 		g.m.Defs = append(g.m.Defs, Def{Name: name, Type: st, Comment: maybeComment(t, name)})
 	}
@@ -787,7 +813,7 @@ func (g *mgen) unionStructs() T {
 // fieldType draws a type for a non-dense struct field.
 func (g *mgen) fieldType(depth int, allowRecursion bool) T {
 	classes := []string{"bool", "string", "string_bounded", "int", "int_bounded", "float", "float_bounded", "enum_ref", "const_string", "datetime", "default_string", "default_int", "nullable_scalar", "ref"}
-	if depth < g.cfg.MaxDepth {
+	if depth < g.cfg.MaxDepth && !g.cfg.RefChain {
 		classes = append(classes, "array_scalar", "array_struct", "array_ref", "map_scalar", "map_ref", "anon_struct", "union_scalars", "union_structs", "enum_anon", "any", "int_width", "float32", "const_int", "default_list")
 	}
 	for tries := 0; tries < 8; tries++ {
